@@ -183,6 +183,8 @@ pub enum JEv {
     Up,
     /// the application configures the other credential set (identifiers and root key) for its next join
     SwitchCreds,
+    /// same identifiers, another AppKey
+    SwitchKeyOnly,
     /// `n` join attempts in a row that nobody answers (only in the straight-line part)
     Silent { n: u32 },
 }
@@ -391,6 +393,7 @@ impl System for Sys {
         v.push(JEv::Up);
         if self.attempts < 4 {
             v.push(JEv::SwitchCreds);
+            v.push(JEv::SwitchKeyOnly);
         }
         v
     }
@@ -407,8 +410,8 @@ impl System for Sys {
                 }
                 vec![]
             }
-            JEv::SwitchCreds => {
-                self.creds ^= 1;
+            JEv::SwitchCreds | JEv::SwitchKeyOnly => {
+                self.creds ^= if matches!(ev, JEv::SwitchKeyOnly) { 2 } else { 1 };
                 if let Some(nb) = &mut self.nb {
                     nb.apply(&Ev::UseCreds(self.creds));
                 } else if let Some(ac) = &mut self.ac {
@@ -612,7 +615,7 @@ pub fn run(tier: Tier, replay: Option<&str>) {
         ],
         "evaluations": ctx.evals(),
         "distinct_nontrivial": states + sweep.load(Ordering::Relaxed),
-        "rule": "(A) sweep: every JoinAccept content (all 256 DLSettings x RxDelay x CFList variants incl. RFU types, zero / out-of-band frequencies and masks; JoinNonce/NetID/DevAddr/DevNonce boundary sets) delivered in RX1 or RX2 to a fresh device, after a failed attempt, and as a re-join from a joined state with non-default settings, followed by the first uplink; (B) BFS over histories of up to 4 join attempts (none / valid RX1 / valid RX2 / bad MIC / wrong key / wrong length / replay of an earlier accept / data frame / bad-then-valid) interleaved with uplinks and with the application switching to a second credential set, on nb, async and async+Class C; (C) 72-channel plans: for every k in 0..=72, k unanswered attempts, a join accepted with a CFList, 72 unanswered re-join attempts",
+        "rule": "(A) sweep: every JoinAccept content (all 256 DLSettings x RxDelay x CFList variants incl. RFU types, zero / out-of-band frequencies and masks; JoinNonce/NetID/DevAddr/DevNonce boundary sets) delivered in RX1 or RX2 to a fresh device, after a failed attempt, and as a re-join from a joined state with non-default settings, followed by the first uplink; (B) BFS over histories of up to 4 join attempts (none / valid RX1 / valid RX2 / bad MIC / wrong key / wrong length / replay of an earlier accept / data frame / bad-then-valid) interleaved with uplinks and with the application switching to a second credential set or to another AppKey for the same identifiers, on nb, async and async+Class C; (C) 72-channel plans: for every k in 0..=72, k unanswered attempts, a join accepted with a CFList, 72 unanswered re-join attempts",
         "sweep_cases": sweep.load(Ordering::Relaxed),
         "bfs_depth": depth,
         "outcomes": outcomes,
